@@ -181,6 +181,16 @@ class LoopView:
             raise AttributeError(k)
 
 
+class AbstractGen:
+    """The result of calling a generator that is under a contract of its own (modular use): the loop consuming it sees an
+    arbitrary next item satisfying the per-yield postconditions (`next_item(I)` returns it, assuming them and updating ghost
+    state), and, when the generator is exhausted, the generator's final postcondition (`finish(I)` assumes it).
+    `havoc(I)` forgets the ghost state the generator accumulates (called at the loop head)."""
+
+    def __init__(self, next_item, finish, havoc):
+        self.next_item, self.finish, self.havoc = next_item, finish, havoc
+
+
 class Hooks:
     """Per-function verification hooks supplied by the contract."""
 
@@ -606,6 +616,8 @@ class Interp:
                     raise Unsupported("loop contract over range with non-positive step")
             elif isinstance(iterable, SeqBox):
                 it = 0
+            elif isinstance(iterable, AbstractGen):
+                it = None
             else:
                 raise Unsupported("loop contract on a for loop over %s" % type(iterable).__name__)
         ghost = P.ghost
@@ -637,6 +649,8 @@ class Interp:
                 env[nm] = self.havoc(env[nm], nm, rebind=(nm in names or nm in spec.modifies))
         if spec.on_iter is not None:
             spec.on_iter('havoc', view(it))
+        if isinstance(iterable, AbstractGen):
+            iterable.havoc(self)
         if it is not None:
             it = P.fresh_int('it')
             if isinstance(iterable, RangeVal):
@@ -652,6 +666,8 @@ class Interp:
             cond = self.truth(self.eval(node.test, env))
         elif isinstance(iterable, RangeVal):
             cond = it < iterable.stop
+        elif isinstance(iterable, AbstractGen):
+            cond = P.fresh('more_items', z3.BoolSort())
         else:
             cond = it < z3.Length(iterable.expr)
         if P.branch(cond):
@@ -660,6 +676,8 @@ class Interp:
                 if isinstance(iterable, RangeVal):
                     self.assign(node.target, it, env)
                     it = it + iterable.step
+                elif isinstance(iterable, AbstractGen):
+                    self.assign(node.target, iterable.next_item(self), env)
                 else:
                     self.assign(node.target, iterable.expr[it], env)
                     it = it + 1
@@ -687,6 +705,8 @@ class Interp:
             raise PathEnd("loop iteration checked")
         else:
             P.cover(tag + '.exit')
+            if isinstance(iterable, AbstractGen):
+                iterable.finish(self)
             if spec.at_exit is not None:
                 spec.at_exit('exit', view(it))
             self.exec_block(node.orelse, env)
